@@ -65,7 +65,7 @@ edge points included. -/
 theorem onesided_exact_everywhere {K : Type} [Field K] [CharZero K]
     (o : Nat) (ho : o ∈ orders) (N : Nat) (hN : 3 * (scheme o).maskLen ≤ N)
     (q : Polynomial K) (hq : q.natDegree ≤ o) (x₀ h : K) (hh : h ≠ 0) :
-    ∃ rows, d3Onesided (scheme o) ((List.range N).map fun j => q.eval (x₀ + (j : K) * h)) N = some rows
+    ∃ rows, d3Onesided (scheme o) ((List.range N).map fun (j : ℕ) => q.eval (x₀ + (j : K) * h)) N = some rows
       ∧ rows.length = N
       ∧ ∀ i (hi : i < rows.length), evalLin (rows[i]) * h⁻¹ = q.derivative.eval (x₀ + (i : K) * h) :=
   onesided_exact_lemma o ho N hN q hq x₀ h hh
